@@ -48,6 +48,7 @@ func (f *Frame) repeatCall(st *State, cl Val, pos token.Pos, label string) {
 	sortStrings(names)
 	for _, k := range names {
 		vc.havoc(st, k)
+		st.markDirty(k)
 	}
 	if ms.alloc {
 		a := vc.fresh("A", SInt)
